@@ -24,9 +24,8 @@ From OV Require Proofs.SrcEqNewtonC.
    of the restored coordinates (all columns), the rounding floor of the difference quotient for any function, the total error
    (truncation + floor + drift) and the optimal-step trade-off.
    (4) drift and rounding floor AT BINARY64 ITSELF (primitive floats through Flocq's specification), any closure, "whenever finite".
-   Still not proved: the complex rounding floor (the complex division by (delta, 0) has six roundings); a float version of
-   jacobian_total_error (it is jacobian_entry_floor_float + forward_difference_truncation + the triangle inequality, as in the
-   standard model). *)
+   Still not proved: the complex rounding floor (the complex division by (delta, 0) has six roundings); that the closure's own
+   evaluation error eps is small is the user's obligation (it is a hypothesis everywhere). *)
 From Coq Require Import Reals Lra Lia ZArith.
 From Coq Require Floats.
 From Flocq Require Core.Core.
@@ -711,3 +710,90 @@ Example jacobian_entry_floor_float_nonvacuous :
 Proof.
   split; [unfold jacobian; rewrite JacExactFloatRound.exf_run; reflexivity|]. exact (proj2 JacExactFloatRound.exf_conditions).
 Qed.
+
+(* TOTAL error of an entry of Mat64::jacobian at binary64 against the partial derivative g1 0 of the exact function f_i at the real point
+   FR x: truncation + rounding floor + drift, exactly as jacobian_total_error, with every rounding hypothesis discharged *)
+Theorem jacobian_total_error_float : forall (F : list PrimFloat.float -> res (list PrimFloat.float)) (x : list PrimFloat.float) (d : PrimFloat.float)
+    (J : matrix FloatInst.AF) (evs : list (list PrimFloat.float)),
+  jacobian (NReal FloatInst.AF) F x d = Ok (J, evs) ->
+  exists f0, F x = Ok f0 /\ rows J = length f0 /\ cols J = length x /\
+  forall i j, (i < length f0)%nat -> (j < length x)%nat ->
+    exists fj q, F (JacExactGen.call_pt (NReal FloatInst.AF) x d j) = Ok fj /\ mget J i j = Ok q /\
+      forall (fi : list R -> R) (eps Dr : R) (g1 g2 : R -> R) (B : R),
+        ComplexRound.ffinite q -> (ComplexRound.FR d) <> 0%R ->
+        ComplexRound.no_underflow (ComplexRound.FR (PrimFloat.sub (nth i fj (@zero FloatInst.AF)) (nth i f0 (@zero FloatInst.AF))) / (ComplexRound.FR d))%R -> (0 <= eps)%R ->
+        (Rabs (ComplexRound.FR (nth i fj (@zero FloatInst.AF)) - fi (map ComplexRound.FR (JacExactGen.call_pt (NReal FloatInst.AF) x d j))) <= eps * Rabs (fi (map ComplexRound.FR (JacExactGen.call_pt (NReal FloatInst.AF) x d j))))%R ->
+        (Rabs (ComplexRound.FR (nth i f0 (@zero FloatInst.AF)) - fi (map ComplexRound.FR x)) <= eps * Rabs (fi (map ComplexRound.FR x)))%R ->
+        (forall t, (Rmin 0 (ComplexRound.FR d) <= t <= Rmax 0 (ComplexRound.FR d))%R ->
+           derivable_pt_lim (fun t => fi (upd_list (map ComplexRound.FR x) j (nth j (map ComplexRound.FR x) 0 + t)%R)) t (g1 t)) ->
+        (forall t, (Rmin 0 (ComplexRound.FR d) <= t <= Rmax 0 (ComplexRound.FR d))%R -> derivable_pt_lim g1 t (g2 t)) ->
+        (forall t, (Rmin 0 (ComplexRound.FR d) <= t <= Rmax 0 (ComplexRound.FR d))%R -> (Rabs (g2 t) <= B)%R) ->
+        (Rabs (fi (map ComplexRound.FR (JacExactGen.call_pt (NReal FloatInst.AF) x d j)) - fi (upd_list (map ComplexRound.FR x) j (nth j (map ComplexRound.FR x) 0 + (ComplexRound.FR d))%R)) <= Dr)%R ->
+        (Rabs (ComplexRound.FR q - g1 0) <=
+          Rabs (ComplexRound.FR d) / 2 * B +
+          ((2 * ComplexRound.u64 + ComplexRound.u64 * ComplexRound.u64) * Rabs (fi (map ComplexRound.FR (JacExactGen.call_pt (NReal FloatInst.AF) x d j)) - fi (map ComplexRound.FR x)) +
+           eps * ((1 + ComplexRound.u64) * (1 + ComplexRound.u64)) * (Rabs (fi (map ComplexRound.FR (JacExactGen.call_pt (NReal FloatInst.AF) x d j))) + Rabs (fi (map ComplexRound.FR x)))) / Rabs (ComplexRound.FR d) +
+          Dr / Rabs (ComplexRound.FR d))%R.
+Proof. exact JacExactFloatRound.jacobian_total_error_float_lemma. Qed.
+Check jacobian_total_error_float : forall (F : list PrimFloat.float -> res (list PrimFloat.float)) (x : list PrimFloat.float) (d : PrimFloat.float)
+    (J : matrix FloatInst.AF) (evs : list (list PrimFloat.float)),
+  jacobian (NReal FloatInst.AF) F x d = Ok (J, evs) ->
+  exists f0, F x = Ok f0 /\ rows J = length f0 /\ cols J = length x /\
+  forall i j, (i < length f0)%nat -> (j < length x)%nat ->
+    exists fj q, F (JacExactGen.call_pt (NReal FloatInst.AF) x d j) = Ok fj /\ mget J i j = Ok q /\
+      forall (fi : list R -> R) (eps Dr : R) (g1 g2 : R -> R) (B : R),
+        ComplexRound.ffinite q -> (ComplexRound.FR d) <> 0%R ->
+        ComplexRound.no_underflow (ComplexRound.FR (PrimFloat.sub (nth i fj (@zero FloatInst.AF)) (nth i f0 (@zero FloatInst.AF))) / (ComplexRound.FR d))%R -> (0 <= eps)%R ->
+        (Rabs (ComplexRound.FR (nth i fj (@zero FloatInst.AF)) - fi (map ComplexRound.FR (JacExactGen.call_pt (NReal FloatInst.AF) x d j))) <= eps * Rabs (fi (map ComplexRound.FR (JacExactGen.call_pt (NReal FloatInst.AF) x d j))))%R ->
+        (Rabs (ComplexRound.FR (nth i f0 (@zero FloatInst.AF)) - fi (map ComplexRound.FR x)) <= eps * Rabs (fi (map ComplexRound.FR x)))%R ->
+        (forall t, (Rmin 0 (ComplexRound.FR d) <= t <= Rmax 0 (ComplexRound.FR d))%R ->
+           derivable_pt_lim (fun t => fi (upd_list (map ComplexRound.FR x) j (nth j (map ComplexRound.FR x) 0 + t)%R)) t (g1 t)) ->
+        (forall t, (Rmin 0 (ComplexRound.FR d) <= t <= Rmax 0 (ComplexRound.FR d))%R -> derivable_pt_lim g1 t (g2 t)) ->
+        (forall t, (Rmin 0 (ComplexRound.FR d) <= t <= Rmax 0 (ComplexRound.FR d))%R -> (Rabs (g2 t) <= B)%R) ->
+        (Rabs (fi (map ComplexRound.FR (JacExactGen.call_pt (NReal FloatInst.AF) x d j)) - fi (upd_list (map ComplexRound.FR x) j (nth j (map ComplexRound.FR x) 0 + (ComplexRound.FR d))%R)) <= Dr)%R ->
+        (Rabs (ComplexRound.FR q - g1 0) <=
+          Rabs (ComplexRound.FR d) / 2 * B +
+          ((2 * ComplexRound.u64 + ComplexRound.u64 * ComplexRound.u64) * Rabs (fi (map ComplexRound.FR (JacExactGen.call_pt (NReal FloatInst.AF) x d j)) - fi (map ComplexRound.FR x)) +
+           eps * ((1 + ComplexRound.u64) * (1 + ComplexRound.u64)) * (Rabs (fi (map ComplexRound.FR (JacExactGen.call_pt (NReal FloatInst.AF) x d j))) + Rabs (fi (map ComplexRound.FR x)))) / Rabs (ComplexRound.FR d) +
+          Dr / Rabs (ComplexRound.FR d))%R.
+Print Assumptions jacobian_total_error_float.
+(* the run of jacobian_entry_floor_float_nonvacuous with f_0 = first coordinate, eps = 0, g(t) = 1 + t, B = 0, Dr = u |1 + delta| *)
+Example jacobian_total_error_float_nonvacuous :
+  (forall t, derivable_pt_lim (fun t => nth 0 (upd_list (map ComplexRound.FR JacExactFloatRound.exf_x) 0
+                                                  (nth 0 (map ComplexRound.FR JacExactFloatRound.exf_x) 0 + t)%R) 0%R) t 1%R) /\
+  (forall t, derivable_pt_lim (fun _ : R => 1%R) t 0%R) /\ (Rabs 0 <= 0)%R /\
+  (Rabs (nth 0 (map ComplexRound.FR (JacExactGen.call_pt (NReal FloatInst.AF) JacExactFloatRound.exf_x JacExactFloatRound.exf_d 0)) 0 -
+         nth 0 (upd_list (map ComplexRound.FR JacExactFloatRound.exf_x) 0
+                  (nth 0 (map ComplexRound.FR JacExactFloatRound.exf_x) 0 + ComplexRound.FR JacExactFloatRound.exf_d)%R) 0) <=
+   ComplexRound.u64 * Rabs (ComplexRound.FR (@one FloatInst.AF) + ComplexRound.FR JacExactFloatRound.exf_d))%R.
+Proof. exact JacExactFloatRound.exf_total_conditions. Qed.
+
+(* the drift term Dr at binary64 from coordinate-wise Lipschitz constants of f_i (here over all points of the dimension of x) *)
+Theorem jacobian_drift_lipschitz_float : forall (F : list PrimFloat.float -> res (list PrimFloat.float)) (x : list PrimFloat.float) (d : PrimFloat.float)
+    (st : list PrimFloat.float) (J : matrix FloatInst.AF) (evs : list (list PrimFloat.float)) (j : nat) (fi : list R -> R) (L : nat -> R),
+  jacobian_tr (NReal FloatInst.AF) F x d = Ok (st, J, evs) ->
+  (forall k, (k < length x)%nat -> ComplexRound.ffinite (nth k st (@zero FloatInst.AF))) ->
+  (j < length x)%nat -> (forall k, (0 <= L k)%R) ->
+  (forall p, length p = length x ->
+     (Rabs (fi p - fi (upd_list (map ComplexRound.FR x) j (nth j (map ComplexRound.FR x) 0 + (ComplexRound.FR d))%R)) <=
+       RoundModel.Rsum (length x) (fun k => L k * Rabs (nth k p 0 - nth k (upd_list (map ComplexRound.FR x) j (nth j (map ComplexRound.FR x) 0 + (ComplexRound.FR d))%R) 0)))%R) ->
+  (Rabs (fi (map ComplexRound.FR (JacExactGen.call_pt (NReal FloatInst.AF) x d j)) - fi (upd_list (map ComplexRound.FR x) j (nth j (map ComplexRound.FR x) 0 + (ComplexRound.FR d))%R)) <=
+    RoundModel.Rsum (length x)
+      (fun k => L k * (if (k =? j)%nat then ComplexRound.u64 * Rabs (nth k (map ComplexRound.FR x) 0 + (ComplexRound.FR d))
+                       else if (k <? j)%nat then (2 * ComplexRound.u64 + ComplexRound.u64 * ComplexRound.u64) * (Rabs (nth k (map ComplexRound.FR x) 0) + Rabs (ComplexRound.FR d)) else 0)))%R.
+Proof. exact JacExactFloatRound.drift_lipschitz_float_lemma. Qed.
+Check jacobian_drift_lipschitz_float : forall (F : list PrimFloat.float -> res (list PrimFloat.float)) (x : list PrimFloat.float) (d : PrimFloat.float)
+    (st : list PrimFloat.float) (J : matrix FloatInst.AF) (evs : list (list PrimFloat.float)) (j : nat) (fi : list R -> R) (L : nat -> R),
+  jacobian_tr (NReal FloatInst.AF) F x d = Ok (st, J, evs) ->
+  (forall k, (k < length x)%nat -> ComplexRound.ffinite (nth k st (@zero FloatInst.AF))) ->
+  (j < length x)%nat -> (forall k, (0 <= L k)%R) ->
+  (forall p, length p = length x ->
+     (Rabs (fi p - fi (upd_list (map ComplexRound.FR x) j (nth j (map ComplexRound.FR x) 0 + (ComplexRound.FR d))%R)) <=
+       RoundModel.Rsum (length x) (fun k => L k * Rabs (nth k p 0 - nth k (upd_list (map ComplexRound.FR x) j (nth j (map ComplexRound.FR x) 0 + (ComplexRound.FR d))%R) 0)))%R) ->
+  (Rabs (fi (map ComplexRound.FR (JacExactGen.call_pt (NReal FloatInst.AF) x d j)) - fi (upd_list (map ComplexRound.FR x) j (nth j (map ComplexRound.FR x) 0 + (ComplexRound.FR d))%R)) <=
+    RoundModel.Rsum (length x)
+      (fun k => L k * (if (k =? j)%nat then ComplexRound.u64 * Rabs (nth k (map ComplexRound.FR x) 0 + (ComplexRound.FR d))
+                       else if (k <? j)%nat then (2 * ComplexRound.u64 + ComplexRound.u64 * ComplexRound.u64) * (Rabs (nth k (map ComplexRound.FR x) 0) + Rabs (ComplexRound.FR d)) else 0)))%R.
+Print Assumptions jacobian_drift_lipschitz_float.
+(* non-vacuity: jacobian_call_points_drift_float_nonvacuous (the run, finite final state) and jacobian_drift_lipschitz_nonvacuous
+   (a function with Lipschitz constants 3, 2) *)
